@@ -205,6 +205,27 @@ pub fn aligned_len(cursor_off: usize, name_len: usize, r: usize, extra_blocks: u
     None
 }
 
+/// Payload length such that the entry's WAL footprint (headers, padding, payload) is exactly `target` bytes:
+/// the cursor then ends at the same in-file offset, `target / file size` files further.
+pub fn footprint_len(cursor_off: usize, name_len: usize, target: usize) -> Option<u32> {
+    let fixed = 11 + name_len + 12;
+    if target < fixed + 7 {
+        return None;
+    }
+    let (mut lo, mut hi) = (0usize, target);
+    while lo < hi {
+        let mid = (lo + hi) / 2;
+        let (_, bytes) = advance(cursor_off, fixed + mid);
+        if bytes < target {
+            lo = mid + 1;
+        } else {
+            hi = mid;
+        }
+    }
+    let (_, bytes) = advance(cursor_off, fixed + lo);
+    if bytes == target { Some(lo as u32) } else { None }
+}
+
 pub struct Gen {
     pub cfg: GenCfg,
     pub rng: Rng,
@@ -326,6 +347,14 @@ impl Gen {
                     if let Some((_, off)) = d.cursor {
                         let mut r = if rng.chance(3, 4) { rng.usize_below(17) } else { rng.usize_below(BLOCK) };
                         let mut extra = *rng.pick(&[0usize, 0, 0, 1, 1, 2, 3]);
+                        if n == 1 && rng.chance(1, 12) {
+                            // footprint of exactly one (or two) files: same in-file offset, next file
+                            let target = FILE_BYTES * (1 + rng.usize_below(2));
+                            if let Some(l) = footprint_len(off % FILE_BYTES, d.names[q].len(), target) {
+                                lens[0] = l;
+                                return Op::Append { q, pos, lens, uid: self.uid() };
+                            }
+                        }
                         if rng.chance(1, 5) {
                             // end exactly on the last byte of the file (the cursor then equals the file size)
                             r = 0;
